@@ -171,14 +171,14 @@ def _run(params, values):
     return recs, [cbs[which], kind, inj.raised, out]
 
 
-RULE_NAMES = ["emphasis", "table", "link", "list", "smartquotes", "strikethrough"]
+RULE_NAMES = ["emphasis", "table", "smartquotes"]
 
 
 def _rr_free(params):
     fr = []
     for s in range(2):
         fr += [Free(f"n{s}", kind="int", lo=0, hi=len(RULE_NAMES) - 1), Free(f"en{s}", kind="bool"), Free(f"do{s}", kind="bool")]
-    fr += [Free("exit", kind="int", lo=0, hi=3), Free("ek", kind="int", lo=0, hi=3)]
+    fr += [Free("exit", kind="int", lo=0, hi=3), Free("ek", kind="int", lo=0, hi=1)]
     return fr
 
 
